@@ -27,7 +27,7 @@ type Case struct {
 	P         string `json:"primary"`   // answer | noanswer | error
 	S         string `json:"secondary"` // answer | noanswer | error
 	Standby   bool   `json:"always_standby"`
-	Threshold string `json:"threshold"` // never (1 h) | elapsed (1 ms)
+	Threshold string `json:"threshold"` // never (1 h) | elapsed (1 ms) | finite (200 ms, primary answers at once: see finiteThreshold)
 	Order     string `json:"order"`     // p_first | s_first | together | p_only (secondary is never released)
 	Pause     bool   `json:"pause"`     // hold the primary between signalling 'done' and queueing its answer
 	Cancel    string `json:"cancel"`    // none | before | after_first
@@ -42,6 +42,10 @@ func genCase(t *rapid.T) Case {
 		Threshold: rapid.SampledFrom([]string{"never", "never", "elapsed"}).Draw(t, "threshold"),
 		Order:     rapid.SampledFrom([]string{"p_first", "s_first", "together", "p_only"}).Draw(t, "order"),
 		Cancel:    rapid.SampledFrom([]string{"none", "none", "none", "before", "after_first"}).Draw(t, "cancel"),
+	}
+	if rapid.IntRange(0, 19).Draw(t, "finite") == 7 {
+		// timed scenario, 250 ms per case
+		return Case{P: "answer", S: c.S, Standby: false, Threshold: "finite", Order: "p_first", Cancel: "none"}
 	}
 	if rapid.IntRange(0, 3).Draw(t, "hasPrelude") == 0 {
 		c.Prelude = rapid.IntRange(1, 3).Draw(t, "prelude")
@@ -120,7 +124,58 @@ func prelude() *hx.Failure {
 	return nil
 }
 
+// finiteThreshold: always_standby off, threshold 200 ms, the primary answers at once. Its answer must be returned and
+// the secondary must not be started, neither before nor after the threshold has passed (the primary was in time).
+// The verdict is taken only if the primary was measured to have finished within 20 ms of the start of the call.
+func finiteThreshold(c Case, ctx *hx.Ctx) *hx.Failure {
+	p := &gated{name: "primary", outcome: "answer", gate: make(chan struct{})}
+	s := &gated{name: "secondary", outcome: c.S, gate: make(chan struct{})}
+	close(p.gate)
+	close(s.gate)
+	m := coremain.NewTestMosdnsWithPlugins(map[string]any{"p": sequence.Executable(p), "s": sequence.Executable(s)})
+	fb, err := fallback.Init(coremain.NewBP("fb", m), &fallback.Args{Primary: "p", Secondary: "s", Threshold: 200, AlwaysStandby: false})
+	if err != nil {
+		return hx.Failf("C20/harness", "init: %v", err)
+	}
+	q := new(dns.Msg)
+	q.SetQuestion("q.c20.test.", dns.TypeA)
+	qCtx := query_context.NewContext(q)
+	start := time.Now()
+	e := execBounded(fb.(sequence.Executable), qCtx)
+	took := time.Since(start)
+	if errors.Is(e, errHang) {
+		return hx.Failf("C20/hang", "threshold 200 ms, primary answers at once: Exec did not return within 10 s")
+	}
+	if e != nil {
+		return hx.Failf("C20/expected-answer", "threshold 200 ms, primary answers at once: %v", e)
+	}
+	got := ""
+	if r := qCtx.R(); r != nil && len(r.Answer) == 1 {
+		got = r.Answer[0].(*dns.TXT).Txt[0]
+	}
+	time.Sleep(time.Until(start.Add(260 * time.Millisecond)))
+	started := s.started.Load()
+	quiesce.WaitGone("fallback.(*fallback).doFallback", 5*time.Second)
+	if took > 20*time.Millisecond {
+		ctx.Class("inconclusive:timing")
+		return nil
+	}
+	if got != "from-primary" {
+		return hx.Failf("C20/wrong-winner", "threshold 200 ms, the primary answered after %v: Exec returned %q", took, got)
+	}
+	if started {
+		return hx.Failf("C20/secondary-started-although-primary-in-time", "always_standby off, threshold 200 ms: the primary answered after %v, yet the secondary was started (by 260 ms after the start of the call)", took)
+	}
+	ctx.Class("threshold=finite")
+	ctx.Nontrivial(fmt.Sprintf("%v", c))
+	ctx.Sample(map[string]any{"case": c, "result": got, "primary_took_us": took.Microseconds()})
+	return nil
+}
+
 func runCase(c Case, ctx *hx.Ctx) *hx.Failure {
+	if c.Threshold == "finite" {
+		return finiteThreshold(c, ctx)
+	}
 	for i := 0; i < c.Prelude; i++ {
 		if f := prelude(); f != nil {
 			return f
@@ -417,6 +472,20 @@ func runCase(c Case, ctx *hx.Ctx) *hx.Failure {
 	return nil
 }
 
+var errHang = errors.New("Exec did not return")
+
+// execBounded runs Exec with a context that never ends by itself, but gives up after 10 s.
+func execBounded(e sequence.Executable, qCtx *query_context.Context) error {
+	done := make(chan error, 1)
+	go func() { done <- e.Exec(context.Background(), qCtx) }()
+	select {
+	case err := <-done:
+		return err
+	case <-time.After(10 * time.Second):
+		return errHang
+	}
+}
+
 func TestPropFallback(t *testing.T) { hx.Check(t, 3000, genCase, runCase) }
 
 func TestReplay(t *testing.T) { hx.Replay(t, "TestPropFallback", 20, runCase) }
@@ -443,7 +512,10 @@ func TestStressStandby(t *testing.T) {
 			q := new(dns.Msg)
 			q.SetQuestion("q.c20.test.", dns.TypeA)
 			qCtx := query_context.NewContext(q)
-			if err := fb.(sequence.Executable).Exec(context.Background(), qCtx); err != nil {
+			if err := execBounded(fb.(sequence.Executable), qCtx); err != nil {
+				if errors.Is(err, errHang) {
+					return hx.Failf("C20/hang", "hook-free stress run %d: both sides answered at once but Exec did not return within 10 s", i)
+				}
 				return hx.Failf("C20/expected-answer", "%v", err)
 			}
 			if qCtx.R().Answer[0].(*dns.TXT).Txt[0] != "from-primary" {
@@ -495,7 +567,7 @@ func TestThresholdFromStart(t *testing.T) {
 					pAt.Store(int64(time.Since(start)))
 					close(p.gate)
 				}()
-				e := fb.(sequence.Executable).Exec(context.Background(), qCtx)
+				e := execBounded(fb.(sequence.Executable), qCtx)
 				time.Sleep(time.Until(start.Add(650 * time.Millisecond)))
 				o := out{err: e, pReleasedAfter: time.Duration(pAt.Load())}
 				if e == nil && qCtx.R() != nil {
@@ -507,6 +579,9 @@ func TestThresholdFromStart(t *testing.T) {
 		conclusive := 0
 		for i := 0; i < 6; i++ {
 			o := <-res
+			if errors.Is(o.err, errHang) {
+				return hx.Failf("C20/hang", "timed scenario: both sides answered but Exec did not return within 10 s")
+			}
 			if o.err != nil {
 				return hx.Failf("C20/expected-answer", "%v", o.err)
 			}
